@@ -8,7 +8,7 @@
 //verif:cover VerifC20Generated len16
 //verif:cover VerifC20Validators two-byte-rune
 //verif:cover VerifC20Distinct different-kinds same-kind
-//verif:cover VerifC20ConsumablePaths filelist descriptor
+//verif:cover VerifC20ConsumablePaths filelist descriptor reverse-index-chunk
 package model
 
 
@@ -120,7 +120,18 @@ func VerifC20ArchivePaths() {
 // VerifC20ConsumablePaths: the consumable-store metadata paths and their inverse, for every index.
 func VerifC20ConsumablePaths() {
 	vBudget(8000000)
-	if vChoose("kind", 2) == 0 {
+	kind := vChoose("kind", 3)
+	if kind == 2 {
+		// reverse-lookup index chunk files (written by purge): name <-> chunk number
+		vCover("reverse-index-chunk")
+		idx := vIndex()
+		got, err := ReverseIndexChunk(ReverseIndexFile(idx))
+		vAssert(err == nil && got == idx, "reverse-index-chunk-round-trips")
+		_, err = ReverseIndexChunk(ReverseIndexPrefix() + "-5.yaml")
+		vAssert(err != nil, "negative-chunk-number-is-rejected")
+		return
+	}
+	if kind == 0 {
 		vCover("descriptor")
 		p := GetConsumablePathToBundle(vKsuid1) // panics if its own inverse disagrees
 		info, err := GetConsumableStorePathMetadata(p)
